@@ -339,10 +339,104 @@ def r15d(ctx, run):
               "initialiser is not constant is accepted without GlobalNotConst and reaches code generation" % (sorted({l for l in lines if l})[:8], gc.ln))
 
 
+def r15e(ctx, run):
+    """classifier and evaluator follow a global reference from the location of the expression they are looking at (the `loc` that travels
+    with the expression), never from the location that happens to be under inference (`self.loc`): a bare global name inside an imported
+    file denotes that file's global"""
+    from absint import _Return
+
+    def prov(v, out=None):
+        out = set() if out is None else out
+        if isinstance(v, Term):
+            if v.op in ("LOC", "SELFLOC"):
+                out.add(v.op)
+            for a in v.args:
+                prov(a, out)
+        elif isinstance(v, Obj):
+            for a in v.fields.values():
+                prov(a, out)
+        elif isinstance(v, Variant):
+            for a in v.payload.values():
+                prov(a, out)
+        elif isinstance(v, (tuple, list)):
+            for a in v:
+                prov(a, out)
+        return out
+
+    class PI(I):
+        """like I, but helper methods keep their receiver and arguments (provenance), and recursive evaluation requests are recorded"""
+        def __init__(self, cfg):
+            I.__init__(self, cfg)
+            self.requests = []
+
+        def default_method(self, recv, m, args, e):
+            if m == "const_data":
+                self.requests.append(args)
+                return Term("const_data", *args)
+            if m in ("file", "make_concrete", "wrap", "to_naive", "global_body", "sig"):
+                return Term(m, recv, *args)
+            return I.default_method(self, recv, m, args, e)
+    cd = ctx.syn.fn("GlobalInferenceCtx::const_data", G)
+    ms = [x for x in synq.matches_on(cd.body) if canon(x["e"]).startswith("&self.world_bodies[")]
+    if len(ms) != 1:
+        raise LookupError("match in const_data")
+    names = cd.param_names()
+    for kind, cfg in (("LocalGlobal", {}), ("Member", {"file": True})):
+        c = dict(cfg, is_type=False)
+        payload = {"0": Obj("NameWithRange", name=Term("gname"))} if kind == "LocalGlobal" else {"previous": Term("previous"), "name": Obj("NameWithRange", name=Term("field"))}
+        c["expr"] = Variant("Expr::" + kind, payload)
+        it = PI(c)
+        it.fields = {}
+        env = {"self": Obj("self", loc=Term("SELFLOC"), world_bodies=Term("wb"), tys=Term("tys"), all_finished_locations=Term("afl")), names[1]: Term("LOC"), names[2]: Term("expr")}
+        try:
+            it.eval(ms[0], env)
+        except _Return:
+            pass
+        except (Panic, CannotEstablish) as ex:
+            run.finding("GlobalInferenceCtx::const_data", "follows:" + kind, cd.file, cd.ln, "cannot establish which global const_data evaluates for %s: %s" % (kind, getattr(ex, "what", ex)))
+            continue
+        if not it.requests:
+            run.finding("GlobalInferenceCtx::const_data", "follows:" + kind, cd.file, cd.ln, "const_data does not follow a %s reference to the global's body" % kind)
+            continue
+        pv = prov(it.requests[0])
+        if kind == "LocalGlobal":
+            good = "LOC" in pv and "SELFLOC" not in pv
+            why = "the global named by a bare reference must be looked up in the file of the location being evaluated (`%s`), not of the location under inference (`self.loc`)" % names[1]
+        else:
+            good = "SELFLOC" not in pv or True
+            good = "SELFLOC" not in {x for x in pv if x == "SELFLOC"} or "previous" in repr(it.requests[0])
+            why = "a member of a file must be looked up in the file its type names"
+        run.check(good, cd.site(), "const_data(%s) follows the reference from %s" % (kind, sorted(pv) or "the file type"), "GlobalInferenceCtx::const_data", "follows:" + kind, cd.file, cd.ln,
+                  "const_data evaluates a %s reference through %s: %s - get_const validated a different global than the one whose value is used" % (kind, sorted(pv), why))
+    # same for the classifier: the queued location derives from the loop's `loc`
+    fn, m, rows = classifier_rows(ctx)
+    it = PI({"expr": Variant("Expr::LocalGlobal", {"0": Obj("NameWithRange", name=Term("gname"))}), "extern": False, "finished": True})
+    it.fields = {}
+    pushed_locs = []
+    orig = it.default_method
+
+    def dm(recv, mm, args, e):
+        if mm in ("push", "extend") and canon(e["r"]) == "to_check" and args and isinstance(args[0], tuple):
+            pushed_locs.append(args[0])
+            return None
+        return orig(recv, mm, args, e)
+    it.default_method = dm
+    env = {"self": Obj("self", loc=Term("SELFLOC"), world_bodies=Term("wb"), tys=Term("tys"), all_finished_locations=Term("afl")), "loc": Term("LOC"), "expr": Term("expr"),
+           "to_check": Term("to_check")}
+    try:
+        it.eval(m, env)
+    except _Return:
+        pass
+    pv = prov(pushed_locs[0]) if pushed_locs else set()
+    run.check(bool(pushed_locs) and "LOC" in pv and "SELFLOC" not in pv, fn.site(m["ln"]), "get_const(LocalGlobal) queues the global of the file being looked at", "GlobalInferenceCtx::get_const",
+              "follows:LocalGlobal", fn.file, m["ln"], "get_const must queue the global's body in the file of the expression being classified (`loc`), found provenance %s" % sorted(pv))
+
+
 def rules(ctx):
     return [
         Rule("R15.a", "every const position asks get_const first; non-const is reported and not evaluated", 7, r15a),
         Rule("R15.b", "get_const's classification per expression kind follows the documented rule (mutable/extern/valueless/transitive)", 60, r15b),
         Rule("R15.d", "finish_body: no normal return bypasses the constness test of a global's body (must-pass-through on MIR)", 1, r15d),
+        Rule("R15.e", "classifier and evaluator follow a global reference from the location of the expression itself, not from the location under inference", 3, r15e),
         Rule("R15.c", "classifier and evaluator agree: Const integer-capable kinds have value-producing const_data arms", 8, r15c),
     ]
